@@ -126,7 +126,14 @@ pub fn run_grad_px(l: &[i128]) -> Vec<i128> {
     }
     let kind = l[0];
     let (x0, y0, x1, y1, rad) = (f(l[1]), f(l[2]), f(l[3]), f(l[4]), f(l[5]));
-    let (spread, hq, blend, bg) = (l[6], l[7] != 0, l[8], l[9] % 3);
+    let (spread, hq, blend, bg) = (l[6], l[7] != 0, l[8] % 2, l[9] % 3);
+    // Shader::apply_opacity calls made before drawing: none | 1.0 | 0.5 then 1.0 | 0.5
+    let opseq: &[f32] = match l[8] / 2 {
+        0 => &[],
+        1 => &[1.0],
+        2 => &[0.5, 1.0],
+        _ => &[0.5],
+    };
     // the transform of the draw call (canvas): identity, a quarter turn, a non-uniform scale, a skew
     let canvas = match l[9] / 3 {
         0 => Transform::identity(),
@@ -157,6 +164,11 @@ pub fn run_grad_px(l: &[i128]) -> Vec<i128> {
         Some(s) => s,
         None => return vec![0, 0, 0, 0, 0, 0, 0, 0, 0, 2],
     };
+    let mut shader = shader;
+    for o in opseq {
+        shader.apply_opacity(*o);
+    }
+    let op_total: f64 = opseq.iter().map(|o| *o as f64).product();
     let solid = matches!(shader, Shader::SolidColor(_));
     let mut pm = Pixmap::new(w, h).unwrap();
     let bgc = [[0u8, 0, 0, 0], [255, 255, 255, 255], [40, 10, 90, 128]][(bg as usize) % 3];
@@ -177,7 +189,10 @@ pub fn run_grad_px(l: &[i128]) -> Vec<i128> {
         return vec![0, 0, 0, 0, 0, 0, 0, 0, 0, 1];
     }
     // reference
-    let s = sanitise(&stops, &raw);
+    let mut s = sanitise(&stops, &raw);
+    for st in s.iter_mut() {
+        st.c[3] *= op_total;
+    }
     // device = canvas(ts(gradient space))
     let inv = match canvas.pre_concat(ts).invert() {
         Some(v) => v,
@@ -230,11 +245,15 @@ pub fn run_grad_px(l: &[i128]) -> Vec<i128> {
         }
     };
     let (mut checked, mut bad, mut worst, mut undef_touched) = (0i128, 0i128, 0.0f64, 0i128);
+    let mut not_premul = 0i128;
     let mut first = [0i128; 5];
     for y in 0..h {
         for x in 0..w {
             let got = pm.pixel(x, y).unwrap();
             let g = [got.red() as f64, got.green() as f64, got.blue() as f64, got.alpha() as f64];
+            if g[0] > g[3] || g[1] > g[3] || g[2] > g[3] {
+                not_premul += 1;
+            }
             let (cx, cy) = (x as f64 + 0.5, y as f64 + 0.5);
             // t at the centre and at the corners of a small box around it: the colours reachable within that box
             let mut ts_ = Vec::new();
@@ -332,5 +351,5 @@ pub fn run_grad_px(l: &[i128]) -> Vec<i128> {
             }
         }
     }
-    vec![checked, bad, (worst * 100.0) as i128, first[0], first[1], first[2], first[3], 0, undef_touched, 0]
+    vec![checked, bad, (worst * 100.0) as i128, first[0], first[1], first[2], first[3], 0, undef_touched, 0, not_premul]
 }
